@@ -657,6 +657,66 @@ def suite_framing(ctx, n=None):
     return [s, q.run()], hits
 
 
+def suite_long_lines(ctx, n=None):
+    """the text clients on a StreamReader with a small line limit: lines shorter than, as long as and longer than the limit (valid sentences
+    and garbage, several overlong lines in a row, overlong lines longer than two limits) under segmentations that cut inside and around
+    them.  Correspondence: the lines handed to the decoder vs Reader.feedAllLim on the same reads.  Monitor (model-free): they are the
+    stream's newline-terminated lines whose body is not longer than the limit, whatever the segmentation"""
+    rnd = random.Random(ctx["seed"] + 83)
+    s = common.Suite("client-long-lines", "Actisense / Yacht Devices clients on a real StreamReader with a line limit of 24..100 bytes: streams of valid and garbage lines of lengths "
+                     "around and beyond the limit under segmentations (1 byte, all at once, random cuts, cuts at the limit and at line ends): the strings handed to the "
+                     "decoder vs Reader.feedAllLim (readuntil + the client's overrun handling) on the same reads")
+    hits = []
+    n = n or (40 if ctx["tier"] == "quick" else 600)
+    for t in range(n):
+        kind = ("yd", "actisense")[t % 2]
+        L = rnd.choice([24, 45, 60, 100])
+        lines = []
+        for i in range(rnd.choice([2, 4, 7])):
+            k = rnd.random()
+            if k < 0.4:
+                lines.append(PACKET[kind](i))
+            else:
+                ln = rnd.choice([L - 2, L - 1, L, L + 1, L + 2, 2 * L + 3, 3 * L, rnd.randrange(0, 3 * L)])
+                body = bytes(rnd.choice(b"ABCDEFxyz0123 ") for _ in range(max(ln, 0)))
+                if rnd.random() < 0.3 and ln > 45:
+                    # an overlong line whose tail would be a sentence of its own
+                    v = PACKET[kind](i).rstrip(b"\r\n")
+                    body = body[:max(ln - len(v), 0)] + v
+                lines.append(body + rnd.choice([b"\n", b"\r\n"]))
+        stream = b"".join(lines)
+        mode = rnd.choice(["one", "all", "rand", "limit"])
+        if mode == "limit":
+            cuts = sorted(set(c for c in [L, L + 1, L + 2] + [stream.find(b"\n", j) + d for j in range(0, len(stream), 17) for d in (0, 1)] if 0 < c < len(stream)))
+            reads, prev = [], 0
+            for c in cuts + [len(stream)]:
+                if c > prev:
+                    reads.append(stream[prev:c])
+                prev = c
+        else:
+            reads = c12_segment(rnd, stream, mode)
+        sim = clientsim.Sim(kind, cb_mode="ok")
+        sim.force_limit = L
+        sim = c12_session(kind, lines, reads, "ok", sim=sim)
+        got = list(getattr(sim, "decoder_inputs", []))
+        s.add(f"reader.linesLim {L} {','.join(harness.hx(r) for r in reads)}", None, f"{kind}-L{L}-{mode}", meta=("lines", "\x00".join(got)))
+        exp = [l.decode("utf-8", errors="replace").strip() for l in lines if len(l) - 1 <= L]
+        if got != exp:
+            hits.append({"kind": "long-lines-" + kind, "reads": [r.hex() for r in reads], "packets": [p.hex() for p in lines], "cb": "ok", "limit": L,
+                         "what": f"{kind}, line limit {L}: the decoder was handed {len(got)} lines, the stream has {len(exp)} newline-terminated lines of at most {L} bytes "
+                                 f"(line lengths {[len(l) - 1 for l in lines]}, reads {[len(r) for r in reads][:12]})"})
+    got_lines = common.lean_run(s.reqs) if s.reqs else []
+    s.disagreements = []
+    for req, resp, meta in zip(s.reqs, got_lines, s.meta):
+        model = resp.split(" ", 1)[1] if " " in resp else ""
+        model = "\x00".join(bytes.fromhex(x).decode("utf-8", errors="replace").strip() for x in model.split(",") if x)
+        if model != meta[1]:
+            s.disagreements.append({"request": req, "implementation": meta[1], "model": model, "meta": None})
+    s.exp = [m[1] for m in s.meta]
+    s.wall = 0
+    return [s], hits
+
+
 # ----------------------------------------------------------------------------- monitors: the properties on the observations of a session
 def monitor(sim, sc):
     """returns list of (property, key, what) violated by this real run"""
